@@ -23,21 +23,77 @@ ASSUMPTIONS = [
 import json
 
 
+ISO = C.Isolation()
+
+
 def _trivial(cfg, p):
     nums = [v for v in p.values() if isinstance(v, int)]
     return cfg["crc"] == 0 and cfg["large"] == 0 and cfg["idw"] == 1 and cfg["seqw"] == 1 and not any(nums)
 
 
-def k_pdu(ctx, kind, cfg, p, model_fed=False):
+def build_via_setters(kind, cfg, p, seed):
+    """Reach (cfg, p) through the documented setters, starting from an object built with other values."""
+    import random
     X = C.lib()
-    case = {"k": "pdu", "kind": kind, "cfg": cfg, "p": p, "model_fed": model_fed}
-    key = (kind, tuple(sorted(cfg.items())), json.dumps(p, sort_keys=True))
-    ctx.case(f"{kind}/{C.cfg_class(cfg)}", key, nontrivial=not _trivial(cfg, p), sample=case)
+    r = random.Random(seed)
+    d = X.defs
+    q = json.loads(json.dumps(p))
+    c0 = dict(cfg)
+    steps = []
+    if kind == "eof":
+        q["fault_id"] = r.choice((None, "01", "0102030405060708"))
+        steps = [("fault_location", lambda o: setattr(o, "fault_location", None if p["fault_id"] is None else X.EntityIdTlv(bytes.fromhex(p["fault_id"]))))]
+    elif kind == "finished":
+        q["cond"] = r.choice(C.CONDS)
+        q["fault_id"] = r.choice((None, "0a0b"))
+        q["responses"] = [C.rand_response(r) for _ in range(r.choice((0, 1, 2)))]
+        steps = [("condition_code", lambda o: setattr(o, "condition_code", d.ConditionCode(p["cond"]))),
+                 ("fault_location", lambda o: setattr(o, "fault_location", None if p["fault_id"] is None else X.EntityIdTlv(bytes.fromhex(p["fault_id"])))),
+                 ("file_store_responses", lambda o: setattr(o, "file_store_responses", [C.mk_response(x) for x in p["responses"]]))]
+    elif kind == "metadata":
+        q["src_name"], q["dst_name"] = r.choice((None, "x", "yy" * 40)), r.choice((None, "z", "w" * 100))
+        q["options"] = r.choice((None, [], [[2, "0102", "generic"]]))
+        steps = [("source_file_name", lambda o: setattr(o, "source_file_name", p["src_name"])), ("dest_file_name", lambda o: setattr(o, "dest_file_name", p["dst_name"])),
+                 ("options", lambda o: setattr(o, "options", None if p["options"] is None else [C.mk_option(x) for x in p["options"]]))]
+    elif kind == "nak":
+        q["segments"] = r.choice((None, [], [[1, 2]], [[1, 2], [3, 4], [5, 6]]))
+        fits32 = max([p["start"], p["end"]] + [v for s_ in (p["segments"] or []) for v in s_]) < 2 ** 32
+        if fits32:
+            c0["large"] = r.getrandbits(1)
+        steps = [("segment_requests", lambda o: setattr(o, "segment_requests", None if p["segments"] is None else [tuple(x) for x in p["segments"]])),
+                 ("file_flag", lambda o: setattr(o, "file_flag", d.LargeFileFlag(cfg["large"])))]
+    elif kind == "keep_alive":
+        if p["progress"] < 2 ** 32:
+            c0["large"] = r.getrandbits(1)
+        steps = [("file_flag", lambda o: setattr(o, "file_flag", d.LargeFileFlag(cfg["large"])))]
+    obj = C.build(kind, c0, q)
+    if r.random() < 0.5:
+        obj.pack()
+    r.shuffle(steps)
+    for _, fn in steps:
+        fn(obj)
+        if r.random() < 0.3:
+            obj.pack()
+    return obj, [n for n, _ in steps]
+
+
+def k_pdu(ctx, kind, cfg, p, model_fed=False, via="ctor", seed=0):
+    X = C.lib()
+    case = {"k": "pdu", "kind": kind, "cfg": cfg, "p": p, "model_fed": model_fed, "via": via, "seed": seed}
+    key = (kind, tuple(sorted(cfg.items())), json.dumps(p, sort_keys=True), via, seed)
+    ctx.case(f"{kind}/{C.cfg_class(cfg)}" + ("" if via == "ctor" else "/via_setters"), key, nontrivial=not _trivial(cfg, p), sample=case)
     ctx.table("kind_x_widths", f"{kind}/idw={cfg['idw']}/seqw={cfg['seqw']}")
     _enum_tables(ctx, kind, p)
     want = C.ref_octets(kind, cfg, p)
     feat = f"{kind}/{C.cfg_class(cfg)}"
-    ok, pdu = attempt(C.build, kind, cfg, p)
+    if via == "setters":
+        ok, built = attempt(build_via_setters, kind, cfg, p, seed)
+        pdu = built[0] if ok else built
+        if ok:
+            feat += "/after_setters"
+            case["setter_order"] = built[1]
+    else:
+        ok, pdu = attempt(C.build, kind, cfg, p)
     if not ctx.check("pdu.construct", ok, "raised", f"{kind}/" + (exc_sig(pdu) if not ok else ""), case, error=repr(pdu)):
         return
     ok, raw = attempt(pdu.pack)
@@ -72,6 +128,8 @@ def k_pdu(ctx, kind, cfg, p, model_fed=False):
     ctx.check("pdu.roundtrip", u.packet_len == len(want), "packet_len", feat, case, observed=u.packet_len, expected=len(want))
     ok, rp = attempt(u.pack)
     ctx.check("pdu.roundtrip", ok and bytes(rp) == want, "repack", feat, case, observed=bytes(rp)[:96] if ok else repr(rp))
+    ISO.remember(u, want, kind)
+    ISO.recheck(ctx, "pdu.decoded_objects_independent", case)
 
 
 def _enum_tables(ctx, kind, p):
@@ -184,6 +242,11 @@ def run(ctx):
         kind = r.choice(C.DIRECTIVE_KINDS)
         cfg = C.rand_cfg(r)
         k_pdu(ctx, kind, cfg, C.rand_params(r, kind, cfg), model_fed=r.random() < 0.5)
+    # the same target parameter sets reached through the documented setters (stale cached lengths show here)
+    for j in range(ctx.n(4000, 300_000)):
+        kind = r.choice(("eof", "finished", "metadata", "nak", "keep_alive"))
+        cfg = C.rand_cfg(r)
+        k_pdu(ctx, kind, cfg, C.rand_params(r, kind, cfg), via="setters", seed=ctx.seed * 1_000_003 + ctx.shard[0] * 100_003 + j)
     # values that do not fit the selected width
     for large, bad in ((0, (2 ** 32, 2 ** 32 + 1, 2 ** 63, 2 ** 64 - 1, 2 ** 64)), (1, (2 ** 64, 2 ** 64 + 1, 2 ** 70))):
         for v in bad:
